@@ -272,8 +272,10 @@ def handleOps (op : String) (args : List String) (impl : Impl) : Option Ans :=
     let e ← parseEp? e
     -- the generator only emits integer-valued doubles; decode the integer from the bits
     let k ← Hifi.Drive.Epoch.intOfF64Bits f
-    let exact := decide (k.natAbs * 1000000000 < 9007199254740992 * 512)  -- k·10^9 = k·5^9·2^9: exact while k·5^9 < 2^53
-    let exact := exact && decide (k.natAbs * 1953125 < 9007199254740992)
+    -- `k as f64 * 1e9` is exact iff k·10^9 has at most 53 significant bits (odd part below 2^53)
+    let prod := k.natAbs * 1000000000
+    let tz := (List.range 80).foldl (fun (acc : Nat) _ => if acc % 2 == 0 && acc != 0 then acc / 2 else acc) prod
+    let exact := decide (tz < 9007199254740992)
     let m : Ep := ⟨Dur.add e.dur (nsDur (k * 1000000000)), e.ts⟩
     -- inexact products (|k| beyond ~4.6e9 s, recorded as D19: inherent to `f64 * 1e9`): the model evaluates
     -- the same binary64 product with hardware floats; the property's statement does not cover them
